@@ -260,7 +260,7 @@ Proof.
     + rewrite Hok. cbn [andb]. apply IH; auto.
       apply HI'. left. discriminate.
     + destruct (Hc _ _ _ Hin) as [b Hb]. discriminate.
-  - cbn [andb]. apply IH; auto. apply HI'. right. reflexivity.
+  - cbn [andb]. apply IH; auto.
 Qed.
 
 (* C07 for the three Dasch methods *)
@@ -284,7 +284,7 @@ Proof.
   - destruct r as [d|e]; [|reflexivity].
     destruct (Hr eq_refl) as [[_ Hok]|(e & di & k & pe & Hf & _)]; [|discriminate].
     rewrite Hok. cbn [andb]. apply IH; auto. apply HI'. left. discriminate.
-  - apply IH; auto. apply HI'. right. reflexivity.
+  - apply IH; auto.
 Qed.
 
 (* C08, first half: with damaged files around, every call up to and including
@@ -307,5 +307,5 @@ Theorem failed_load_poisons_refuted :
 Proof.
   split; [vm_compute; reflexivity|]. split; [vm_compute; reflexivity|].
   vm_compute. intros H. inversion H as [Hf].
-  assert (Hx : E 0 0 0 = E 1 0 0) by (rewrite Hf; reflexivity). discriminate.
+  pose proof (f_equal (fun f => f 0 0) Hf) as Hx. simpl in Hx. discriminate.
 Qed.
